@@ -39,7 +39,7 @@ STUBS = ["TTL clocks (SimClock through the time_fn parameter the caches already 
 ASSUMPTIONS = [
     "both arms see the same logical clock and the same simulated wall clock script; only the cache switches differ",
     "comparison is made on what the orchestrator hands to the health/turn roll-up at the end of every completed turn",
-    "T2 fan-out, quality layers and hybrid rerank are off here (their own findings belong to C09/C11/C20)",
+    "about a third of the runs switch the graph-evolution layer and the hybrid / quality rerank layers on (state that changes between turns)",
 ]
 SHRINK_FIELDS = ["ops"]
 
@@ -86,7 +86,19 @@ def generate(seed: int, tier: str) -> Dict[str, Any]:
         fams.append("kill")
     if r.chance(0.5):
         fams.append("t4")
+    layered = r.chance(0.3)
+    if layered:
+        # the graph-evolution layer and the rerank layers read state that changes from turn to turn (co-activation
+        # weights): a cached retrieval must not replay an ordering computed from an older graph
+        fams += ["graph", "hybrid"] + (["quality"] if r.chance(0.4) else [])
     raw = E.valid_cfg(rng.stream("config"), fams, p=0.4)
+    if layered:
+        raw.setdefault("graph", {})["enabled"] = True
+        raw.setdefault("t2", {}).setdefault("hybrid", {})["enabled"] = True
+        raw["t2"]["hybrid"].setdefault("edge_threshold", r.choice([0.0, 0.05]))
+        raw["t2"]["hybrid"].setdefault("lambda_graph", r.choice([0.25, 0.9]))
+        raw["graph"].setdefault("coactivation_threshold", 0.0)
+        raw["graph"].setdefault("update", {"mode": "additive", "alpha": r.choice([0.3, 0.7])})
     if r.chance(0.2):
         # stage thread pools in both arms: a cache entry must not be aliased/mutated by the parallel merge either
         raw.setdefault("perf", {}).setdefault("parallel", {}).update({"enabled": True, "t1": True, "t2": r.chance(0.5), "max_workers": r.choice([2, 4])})
